@@ -35,6 +35,9 @@ pub struct C05Cell {
     pub bumped: bool,
     /// the same partition happens twice (see e2_c05b)
     pub twice: bool,
+    /// max_transmissions (5 normally; 1 = most datagrams after the heal carry
+    /// no update at all)
+    pub mt: u8,
 }
 
 impl C05Cell {
@@ -44,13 +47,13 @@ impl C05Cell {
         } else if self.twice {
             format!("n={} split={}/{} phase={} partition-at-event={} TWO EPISODES first-heal=mutual-down+{} second-heal=first-down+remove_down_after+20+{}", self.n, self.side_a, self.n - self.side_a, self.phase, self.start_event, self.extra, self.extra)
         } else {
-            format!("n={} split={}/{} phase={} partition-at-event={} heal=mutual-down+{} refuted-before={}", self.n, self.side_a, self.n - self.side_a, self.phase, self.start_event, self.extra, self.bumped)
+            format!("n={} split={}/{} phase={} partition-at-event={} heal=mutual-down+{} refuted-before={} max_transmissions={}", self.n, self.side_a, self.n - self.side_a, self.phase, self.start_event, self.extra, self.bumped, self.mt)
         }
     }
 }
 
-fn c05_cfg() -> Cfg {
-    Cfg { probe_period: PERIOD, probe_rtt: 40, suspect_to_down: SUSPECT, remove_down: 1_000_000, notify_down: true, announce_down: Some((ANNOUNCE_DOWN, 2)), fanout: 3, max_tx: 5, ..Cfg::default() }
+fn c05_cfg(mt: u8) -> Cfg {
+    Cfg { probe_period: PERIOD, probe_rtt: 40, suspect_to_down: SUSPECT, remove_down: 1_000_000, notify_down: true, announce_down: Some((ANNOUNCE_DOWN, 2)), fanout: 3, max_tx: mt, ..Cfg::default() }
 }
 
 pub fn run_c05(cell: &C05Cell, devs: &BTreeMap<usize, usize>) -> RunResult {
@@ -60,7 +63,7 @@ pub fn run_c05(cell: &C05Cell, devs: &BTreeMap<usize, usize>) -> RunResult {
     let n = cell.n;
     let mut res = RunResult::default();
     let mut sim = Sim::new(n, SimOpts { lat_menu: vec![1, 9], words: rng::menu(n + 1, n.min(5)), record_sends: false, record_received: false });
-    let cfg = c05_cfg();
+    let cfg = c05_cfg(cell.mt);
     if let Err(e) = form_cluster(&mut sim, n, &cfg, true, cell.phase) {
         res.violations.push(("machinery:formation".into(), e));
         return res;
@@ -246,9 +249,14 @@ pub fn c05(tier: &str) -> Report {
                         // one deviation (latency / tie-break / RNG answer) in the first
                         // announce-to-down period after the heal, on a regular sub-grid
                         let d = if th { usize::from(n <= 5 && ei % 5 == 0) } else { usize::from(n <= 4 || (si % 2 == 0 && ei % 4 == 0)) };
-                        cells.push((C05Cell { n, side_a, phase, start_event, extra: *extra, asymmetric: false, bumped: false, twice: false }, d));
+                        cells.push((C05Cell { n, side_a, phase, start_event, extra: *extra, asymmetric: false, bumped: false, twice: false, mt: 5 }, d));
+                        // max_transmissions 1: after the first datagram nothing
+                        // carries an update any more
+                        if ei % 2 == 0 || th {
+                            cells.push((C05Cell { n, side_a, phase, start_event, extra: *extra, asymmetric: false, bumped: false, twice: false, mt: 1 }, d));
+                        }
                         if si % 2 == 0 && ei < 3 {
-                            cells.push((C05Cell { n, side_a, phase, start_event, extra: *extra, asymmetric: false, bumped: true, twice: false }, 0));
+                            cells.push((C05Cell { n, side_a, phase, start_event, extra: *extra, asymmetric: false, bumped: true, twice: false, mt: 5 }, 0));
                         }
                     }
                 }
@@ -261,13 +269,13 @@ pub fn c05(tier: &str) -> Report {
                 }
                 for start_event in (0..(4 * n as u64)).step_by(if th { 1 } else { 4 }) {
                     for extra in if th { vec![0u64, 50, 130, 255, 380, 500] } else { vec![0u64, 130] } {
-                        cells.push((C05Cell { n, side_a, phase, start_event, extra, asymmetric: false, bumped: false, twice: true }, usize::from(th && n <= 4)));
+                        cells.push((C05Cell { n, side_a, phase, start_event, extra, asymmetric: false, bumped: false, twice: true, mt: 5 }, usize::from(th && n <= 4)));
                     }
                 }
             }
             for start_event in (0..(4 * n as u64)).step_by(if th { 1 } else { 4 }) {
-                cells.push((C05Cell { n, side_a: 0, phase, start_event, extra: 0, asymmetric: true, bumped: false, twice: false }, usize::from(th || n == 3)));
-                cells.push((C05Cell { n, side_a: 0, phase, start_event, extra: 0, asymmetric: true, bumped: true, twice: false }, 0));
+                cells.push((C05Cell { n, side_a: 0, phase, start_event, extra: 0, asymmetric: true, bumped: false, twice: false, mt: 5 }, usize::from(th || n == 3)));
+                cells.push((C05Cell { n, side_a: 0, phase, start_event, extra: 0, asymmetric: true, bumped: true, twice: false, mt: 5 }, 0));
             }
         }
     }
